@@ -912,10 +912,10 @@ namespace awkward {
       if (offsets.length() == 0) {
         return std::pair<Index64, ContentPtr>(
           offsets,
-          std::make_shared<IndexedOptionArray64>(Identities::none(),
-                                                 util::Parameters(),
-                                                 outindex,
-                                                 flattened));
+          IndexedOptionArray64(Identities::none(),
+                               util::Parameters(),
+                               outindex,
+                               flattened).simplify_optiontype());
       }
       else {
         Index64 outoffsets(offsets.length() + numnull);
